@@ -107,6 +107,10 @@ func (pm *PromptMessage) UnmarshalJSON(data []byte) error {
 	if err := json.Unmarshal(data, &temp); err != nil {
 		return fmt.Errorf("failed to unmarshal prompt message structure: %w", err)
 	}
+	if temp == nil {
+		// A JSON null element: json.Unmarshal set the pointer itself to nil.
+		return fmt.Errorf("failed to unmarshal prompt message structure: message is null")
+	}
 
 	if len(temp.Content) > 0 {
 		// Check for JSON null value first
